@@ -135,6 +135,7 @@ type Gate struct {
 }
 
 func NewGate(p *Prog) *Gate {
+	curProg = p
 	return &Gate{P: p, U: NewU(), MaxDepth: 6, NoInline: map[string]bool{}, Pure: map[string]bool{}, Funcs: map[string]bool{}}
 }
 
@@ -1312,6 +1313,10 @@ func derefStruct(t types.Type) *types.Struct {
 // allocIsLocal: a heap Alloc whose address is only used by loads, stores,
 // field/index address computations of itself — or is returned / stored
 // (escapes).  We only need to distinguish "callee calls cannot see it".
+// curProg is the program of the gate most recently created (allocIsLocal asks it which
+// functions are helpers outside the vocabulary).
+var curProg *Prog
+
 func allocIsLocal(a *ssa.Alloc) bool {
 	refs := a.Referrers()
 	if refs == nil {
@@ -1349,6 +1354,20 @@ func allocIsLocal(a *ssa.Alloc) bool {
 				// x.WriteString(..), x.String() on a local strings.Builder / bytes.Buffer: modelled
 				// as operations on its content, the builder does not escape
 				cal := r.Call.StaticCallee()
+				if cal != nil && curProg != nil && curProg.IsNewHelper(cal) && depth < 3 {
+					// handed to a helper outside the vocabulary (always expanded): local if the helper
+					// only reads and writes through the parameter
+					kept := true
+					for i, a := range r.Call.Args {
+						if a == v && (i >= len(cal.Params) || !ok(cal.Params[i], depth+2)) {
+							kept = false
+						}
+					}
+					if kept {
+						continue
+					}
+					return false
+				}
 				if cal == nil || !isBuilderMethod(calleeName(cal)) || len(r.Call.Args) == 0 || r.Call.Args[0] != v {
 					return false
 				}
